@@ -361,6 +361,23 @@ func parseMap(s string) map[string]string {
 	return m
 }
 
+// safeExec runs one op.  A panic raised by the REAL code under test is an oracle failure with a concrete
+// failing input (the ops so far), not a harness crash.
+func safeExec(h *rt.H, s *state, op string, before []string) (out string, ok bool) {
+	defer func() {
+		if r := recover(); r != nil {
+			msg := fmt.Sprint(r)
+			if strings.HasPrefix(msg, "unknown op") || strings.HasPrefix(msg, "bad hex in op") {
+				panic(r) // a harness/protocol bug, not the code under test
+			}
+			out, ok = "PANIC", false
+			h.OracleFail("panic", fmt.Sprintf("the real code panicked at op %q: %s", op, msg),
+				map[string]any{"ops": append(append([]string(nil), before...), op), "panic": msg})
+		}
+	}()
+	return exec(h, s, op), true
+}
+
 func exec(h *rt.H, s *state, op string) string {
 	w := strings.Fields(op)
 	switch w[0] {
@@ -691,9 +708,13 @@ func main() {
 	run := func(ops []string, tag string) {
 		h.Case(tag)
 		s := &state{}
-		for _, op := range ops {
-			out := exec(h, s, op)
+		for i, op := range ops {
+			out, ok := safeExec(h, s, op, ops[:i])
 			h.Op(op, out)
+			if !ok {
+				h.Count("panic")
+				break
+			}
 			w := strings.Fields(op)
 			h.Count("op:" + w[0])
 			if w[0] == "parse" {
